@@ -140,6 +140,7 @@ func (wg *WaitGroup) Wait(ctx context.Context) {
 		default:
 			// block until the context is canceled or we
 			// are signaled.
+			verifAt("fun.WaitGroup.Wait.before-cond-wait")
 			wg.cond.Wait()
 
 			if wg.counter == 0 {
